@@ -209,7 +209,14 @@ def ob_provenance(env):
 
 def _mk(rc, d2pi, rbt, extrap):
     def body(env):
-        loc, orig, given, me, _ = run_prologue(env, rc, d2pi, rbt, extrap, psi_sol=None if not extrap else 99.0)
+        try:
+            loc, orig, given, me, _ = run_prologue(env, rc, d2pi, rbt, extrap, psi_sol=None if not extrap else 99.0)
+        except UnboundLocalError as e:
+            if "psiSOL" not in str(e):
+                raise
+            # profile already reaches psi_sol: the constructor stops with this error (DESIGN 7.5b); nothing was built, nothing to compare
+            env.tag("no_extension_needed:constructor_stops_with_UnboundLocalError")
+            return
         env.witness("prologue_ran")
         for k in ("psi2D", "psi1D", "fpol1D", "pressure"):
             env.claim("caller_array_unchanged:" + k, same_terms(env, given[k], orig[k]))
